@@ -10,47 +10,6 @@ import O4.Lemmas.StreamConn
   window is full; the buffer never exceeds `2·window − 1` bytes, whatever arrives;
 * `readData_spec`: what one `Read` delivers after the scan.
 -/
-namespace O4.SC.Net
-
-theorem read_props {max : Nat} (hmax : 0 < max) {q q' : Net} {c : Bytes}
-    (hq : ∀ ch ∈ q, ch ≠ []) (h : read max q = some (c, q')) :
-    c ≠ [] ∧ size q' < size q ∧ (∀ ch ∈ q', ch ≠ []) := by
-  cases q with
-  | nil => simp [read] at h
-  | cons c0 q0 =>
-    have hc0 : c0 ≠ [] := hq c0 (by simp)
-    have hl0 : 0 < c0.length := List.length_pos_iff.mpr hc0
-    simp only [read] at h
-    by_cases hc : c0.length ≤ max
-    · simp only [hc, ↓reduceIte, Option.some.injEq, Prod.mk.injEq] at h
-      obtain ⟨rfl, rfl⟩ := h
-      refine ⟨hc0, ?_, fun ch hch => hq ch (by simp [hch])⟩
-      simp only [size, List.flatten_cons, List.length_append]; omega
-    · simp only [hc, ↓reduceIte, Option.some.injEq, Prod.mk.injEq] at h
-      obtain ⟨rfl, rfl⟩ := h
-      refine ⟨?_, ?_, ?_⟩
-      · intro he
-        have : (c0.take max).length = 0 := by rw [he]; rfl
-        rw [List.length_take] at this; omega
-      · simp only [size, List.flatten_cons, List.length_append, List.length_drop]; omega
-      · intro ch hch
-        simp only [List.mem_cons] at hch
-        rcases hch with rfl | hch
-        · intro he
-          have : (c0.drop max).length = 0 := by rw [he]; rfl
-          rw [List.length_drop] at this; omega
-        · exact hq ch (by simp [hch])
-
-theorem push_nonempty {q : Net} (hq : ∀ ch ∈ q, ch ≠ []) (c : Bytes) : ∀ ch ∈ push q c, ch ≠ [] := by
-  unfold push
-  by_cases h : c.isEmpty
-  · simpa [h] using hq
-  · simp only [h, Bool.false_eq_true, ↓reduceIte, List.mem_append, List.mem_singleton]
-    rintro ch (hch | rfl)
-    · exact hq ch hch
-    · intro he; simp [he] at h
-
-end O4.SC.Net
 
 namespace O4.Obfs3
 open O4.SC O4.Idx O4.Consts.Obfs3
@@ -784,5 +743,22 @@ theorem feedAll_key {c : Conn} (hc : c.phase = .pubkey) (key rest : Bytes)
       have := congrArg (List.drop uniformdhSize) hq
       rw [List.drop_append_of_le_length hge, List.drop_left' hk] at this
       rw [← this]; simp [List.append_assoc]
+
+/-- the queue the handshake leaves behind consists of non-empty chunks -/
+theorem progress_nonempty (c : Conn) {q : Net} (hq : ∀ ch ∈ q, ch ≠ []) :
+    ∀ ch ∈ (progress P c q).2, ch ≠ [] := by
+  unfold progress
+  split
+  · exact hq
+  · exact Net.dropBytes_nonempty _ hq
+
+theorem feedAll_nonempty (cs : List Bytes) : ∀ (c : Conn) (q : Net), (∀ ch ∈ q, ch ≠ []) →
+    ∀ ch ∈ (feedAll P c q cs).2, ch ≠ [] := by
+  induction cs with
+  | nil => intro c q hq; exact progress_nonempty P c hq
+  | cons x cs ih =>
+    intro c q hq
+    simp only [feedAll]
+    exact ih _ _ (Net.push_nonempty (progress_nonempty P c hq) x)
 
 end O4.Obfs3
